@@ -238,7 +238,7 @@ fn roundtrip<S: Sc>(rep: &mut Report, cfgs: &[Cfg<S>]) {
     let alpha = S::alphabet();
     for c in cfgs {
         let n = count(&c.shape);
-        let k = if n <= 6 { 2 } else { rep.pick(1, 2) };
+        let k = if n <= 6 { 3 } else { rep.pick(2, 3) };
         let dev = DevSpace::new(n, alpha.len(), k);
         rep.cases(
             &format!("roundtrip/{}", c.name),
